@@ -151,14 +151,16 @@ def adjust_moisture_content(retentate, permeate, moisture_content, ID=None, stri
         retentate_water = retentate.imol[ID]
         dry_mass = F_mass - MW * retentate_water
         rkey = ('l', ID) if isinstance(retentate, tmo.MultiStream) else ID
-        retentate.imol[rkey] = water = (dry_mass * mc/(1-mc)) / MW    
+        water = (dry_mass * mc/(1-mc)) / MW
+        retentate.imol[rkey] += water - retentate_water
         pkey = ('l', ID) if isinstance(permeate, tmo.MultiStream) else ID
         permeate.imol[pkey] -= water - retentate_water
     else:
         retentate_moisture = retentate.imass[ID]
         dry_mass = F_mass - retentate_moisture
         rkey = ('l', ID) if isinstance(retentate, tmo.MultiStream) else ID
-        retentate.imass[rkey] = moisture = dry_mass * mc/(1-mc)
+        moisture = dry_mass * mc/(1-mc)
+        retentate.imass[rkey] += moisture - retentate_moisture
         pkey = ('l', ID) if isinstance(permeate, tmo.MultiStream) else ID
         permeate.imass[pkey] -= moisture - retentate_moisture
     if permeate.imol[pkey] < 0:
